@@ -145,12 +145,25 @@ def _supplies(route: str, xmls: list, workdir: Path) -> list:
                 p = x
             elif route == 'gz':
                 p = workdir / f'f{k}.xml.gz'
-                with gzip.open(p, 'wb') as fh:
-                    fh.write(x.read_bytes())
+                data = x.read_bytes()
+                if (k + len(data)) % 2:
+                    # several concatenated members (cat a.gz b.gz, gzip >> f.gz): still one file
+                    cut = [len(data) // 3, 2 * len(data) // 3]
+                    p.write_bytes(b''.join(gzip.compress(c) for c in
+                                           (data[:cut[0]], data[cut[0]:cut[1]], data[cut[1]:])))
+                else:
+                    with gzip.open(p, 'wb') as fh:
+                        fh.write(data)
             else:
                 p = workdir / f'f{k}.xml.xz'
-                with lzma.open(p, 'wb') as fh:
-                    fh.write(x.read_bytes())
+                data = x.read_bytes()
+                if (k + len(data)) % 2:
+                    # several streams in one .xz file
+                    p.write_bytes(lzma.compress(data[:len(data) // 2])
+                                  + lzma.compress(data[len(data) // 2:]))
+                else:
+                    with lzma.open(p, 'wb') as fh:
+                        fh.write(data)
             inputs.append(p)
             calls.append(lambda p=p: wn.add(p, progress_handler=None))
         return calls, inputs
